@@ -402,6 +402,7 @@ static void ProcessFile(char const* FileName, LongWord Offset) {
                     if (MaxIntel < 1) {
                         MaxIntel = 1;
                     }
+                    FirstBank = False;
                     break;
                 case eHexFormatIntel32:
                     FormatOccured |= eIntelOccured;
@@ -454,8 +455,18 @@ static void ProcessFile(char const* FileName, LongWord Offset) {
                 /* Datenzeilen selber */
 
                 while (ErgLen > 0) {
-                    /* evtl. Folgebank fuer Intel32 ausgeben */
+                    /* evtl. Folgebank fuer Intel16/Intel32 ausgeben */
 
+                    if ((ActFormat == eHexFormatIntel16) && (FirstBank)) {
+                        IntOffset += (0x10000 / Gran);
+                        HSeg   = (IntOffset * Gran) >> 4;
+                        ChkSum = 4 + Lo(HSeg) + Hi(HSeg);
+                        errno  = 0;
+                        fprintf(TargFile, ":02000002%04X%02X\n", LoWord(HSeg),
+                                Lo(0x100 - ChkSum));
+                        ChkIO(TargName);
+                        FirstBank = False;
+                    }
                     if ((ActFormat == eHexFormatIntel32) && (FirstBank)) {
                         IntOffset += (0x10000 / Gran);
                         HSeg   = (IntOffset * Gran) >> 16;
@@ -472,7 +483,7 @@ static void ProcessFile(char const* FileName, LongWord Offset) {
                        Bei Mico8 nur 4 Byte (davon ein Wort=18 Bit) pro Zeile! */
 
                     TransLen = min(GroupLineLen, ErgLen);
-                    if ((ActFormat == eHexFormatIntel32)
+                    if (((ActFormat == eHexFormatIntel32) || (ActFormat == eHexFormatIntel16))
                         && (((ErgStart - IntOffset) * Gran) + TransLen >= 0x10000)) {
                         TransLen  = 0x10000 - ((ErgStart - IntOffset) * Gran);
                         FirstBank = True;
